@@ -182,6 +182,8 @@ package curve
 
 // MarshalBinary of the secp256k1 point and scalar types never returns an error, so hash.WriteAny cannot fail on them.
 //@ axiom forall(d, any, ((typeis(d, *Secp256k1Point) || typeis(d, *Secp256k1Scalar)) && refof(d) != 0) ==> wnofail(d))
+// closed world (A-SECP): secp256k1 is the only implementation of curve.Point / curve.Scalar in the module
+//@ axiom forall(d, any, (implements(d, Point) || implements(d, Scalar)) ==> wnofail(d))
 
 // x-only encoding (BIP-340): the 32-byte big-endian affine x coordinate, a function of the group element.
 //@ spec fn xbytes(Int) Int
